@@ -1,9 +1,8 @@
 #!/usr/bin/env python3
 """Whole-program behaviour-preserving transforms (generic twins) and what every check says about them.
 
-  rename-locals : every local variable (not parameters, not attributes) of every function gets a suffix
-  reformat      : ast.unparse of every module (also part of every thorough run)
-usage: tools/generic_twins.py rename-locals|reformat
+The transforms live in sa/twins.py (reformat, rename-locals, swap-branches, flip-compares, restructure); all of them are also part
+of every thorough run. usage: tools/generic_twins.py <mode> [--emit <dir>]
 """
 import ast
 import contextlib
@@ -18,80 +17,11 @@ from sa.core import AnalysisError, Repo  # noqa: E402
 from sa.report import Context, load_known  # noqa: E402
 
 
-class RenameLocals(ast.NodeTransformer):
-    def _locals(self, fn):
-        params = {a.arg for a in fn.args.args + fn.args.kwonlyargs + fn.args.posonlyargs}
-        if fn.args.vararg:
-            params.add(fn.args.vararg.arg)
-        if fn.args.kwarg:
-            params.add(fn.args.kwarg.arg)
-        stored, declared = set(), set()
-        for n in ast.walk(fn):
-            if isinstance(n, ast.Name) and isinstance(n.ctx, (ast.Store, ast.Del)):
-                stored.add(n.id)
-            if isinstance(n, (ast.Global, ast.Nonlocal)):
-                declared |= set(n.names)
-            if isinstance(n, (ast.FunctionDef, ast.AsyncFunctionDef, ast.ClassDef)) and n is not fn:
-                stored.discard(n.name)
-        return stored - params - declared - {"_"}
-
-    def visit_FunctionDef(self, fn):
-        loc = self._locals(fn)
-        for n in ast.walk(fn):
-            if isinstance(n, ast.Name) and n.id in loc:
-                n.id = n.id + "_r"
-        return fn
-
-    visit_AsyncFunctionDef = visit_FunctionDef
-
-
-class SwapBranches(ast.NodeTransformer):
-    """if c: A else: B  ->  if not c: B else: A   (only plain if/else, not elif chains)"""
-    def visit_If(self, node):
-        self.generic_visit(node)
-        if node.orelse and not (len(node.orelse) == 1 and isinstance(node.orelse[0], ast.If)):
-            node.test = ast.UnaryOp(op=ast.Not(), operand=node.test)
-            node.body, node.orelse = node.orelse, node.body
-        return node
-
-
-FLIP = {ast.Lt: ast.Gt, ast.Gt: ast.Lt, ast.LtE: ast.GtE, ast.GtE: ast.LtE, ast.Eq: ast.Eq, ast.NotEq: ast.NotEq}
-
-
-class FlipCompares(ast.NodeTransformer):
-    """a < b -> b > a, a == b -> b == a (single-operator comparisons)"""
-    def visit_Compare(self, node):
-        self.generic_visit(node)
-        if len(node.ops) == 1 and type(node.ops[0]) in FLIP:
-            node.left, node.comparators = node.comparators[0], [node.left]
-            node.ops = [FLIP[type(node.ops[0])]()]
-        return node
-
-
 def main():
     mode = sys.argv[1]
     base = Repo("/repo")
-    ov = {}
-    for rel, m in base.modules.items():
-        if rel.startswith(("tests/", "scripts/", "experiments/")):
-            continue
-        tree = ast.parse(m.source)
-        if mode == "rename-locals":
-            for cls_or_fn in ast.walk(tree):
-                pass
-            # only outermost functions (methods and module functions); nested defs are renamed along with their parent
-            def outer(node):
-                for ch in ast.iter_child_nodes(node):
-                    if isinstance(ch, (ast.FunctionDef, ast.AsyncFunctionDef)):
-                        RenameLocals().visit_FunctionDef(ch)
-                    else:
-                        outer(ch)
-            outer(tree)
-        elif mode == "swap-branches":
-            tree = ast.fix_missing_locations(SwapBranches().visit(tree))
-        elif mode == "flip-compares":
-            tree = ast.fix_missing_locations(FlipCompares().visit(tree))
-        ov[rel] = ast.unparse(tree) + "\n"
+    from sa import twins
+    ov = twins.program(base.modules, mode)
     if "--emit" in sys.argv:
         out = sys.argv[sys.argv.index("--emit") + 1]
         for rel, src in ov.items():
